@@ -98,10 +98,14 @@ func init() {
 			tot += sizes[i]
 		}
 		r := bitmap.OfMany(subs, sizes)
-		if U64s(r) == U64s(b.Words) && b.Offset == tot {
-			return "[1]"
+		trim := func(ws []uint64) []uint64 {
+			for len(ws) > 0 && ws[len(ws)-1] == 0 {
+				ws = ws[:len(ws)-1]
+			}
+			return ws
 		}
-		return L("0", U64s(r), U64s(b.Words), I32(b.Offset))
+		return L(B(U64s(r) == U64s(b.Words)), B(U64s(trim(r)) == U64s(trim(b.Words))), B(b.Offset == tot),
+			U64s(r), U64s(b.Words), I32(b.Offset))
 	}
 	// widening: the constructors composed with the readers of C01 / C13
 	Exec["bitmap.Of/query"] = func(a []V) string {
@@ -119,6 +123,44 @@ func init() {
 		return c12Query(b.Words, a[2].Bool(), a[3].I32(), a[4].I32())
 	}
 	Register("C12", genC12)
+}
+
+// c12Shape: does OfMany(subs, sizes) stay inside the words it allocates (no panic), is the shifted concatenation
+// ascending, and does a later position fall back into a word that an earlier position already touched
+func c12Shape(subs [][]int32, sizes []int32) (fits, asc, revisit bool) {
+	var all []int
+	base := 0
+	for i, e := range subs {
+		for _, p := range e {
+			all = append(all, base+int(p))
+		}
+		base += int(sizes[i])
+	}
+	n := base
+	if len(all) > 0 && all[len(all)-1]+1 > n {
+		n = all[len(all)-1] + 1
+	}
+	if n < 0 {
+		n = 0
+	}
+	nbits := (n + 63) / 64 * 64
+	fits, asc = true, true
+	maxw := -1
+	for i, p := range all {
+		if p < 0 || p >= nbits {
+			fits = false
+		}
+		if i > 0 && p < all[i-1] {
+			asc = false
+		}
+		if p>>6 < maxw {
+			revisit = true
+		}
+		if p>>6 > maxw {
+			maxw = p >> 6
+		}
+	}
+	return
 }
 
 // c12Try renders the result of f, or P if it panics
@@ -738,6 +780,52 @@ func genC12(g *Gen) {
 		}
 		g.Stat("ofmany-asof")
 		g.Do("bitmap.OfMany/asOf", L(c12Subs(subs), I32s(sizes)), key)
+		if fits, asc, rev := c12Shape(subs, sizes); fits {
+			k2 := ""
+			if nseg > 1 {
+				k2 = fmt.Sprintf("OMN/seg%d/asc%v/revisit%v", nseg, asc, rev)
+			}
+			g.Do("bitmap.OfMany", L(c12Subs(subs), I32s(sizes)), k2)
+			g.Do("bitmap.Builder/asOfMany", L(Int(g.R.Pick(0, 64)), c12Subs(subs), I32s(sizes)), k2)
+		}
+	}
+	// (9b) overhang aimed at REVISITED words: small sizes (1..40) with positions 64..200 far past the size, followed by
+	// segments with small positions that fall back into words the overhang (or an earlier segment) already touched
+	for k := 0; k < g.N(1200, 30000); k++ {
+		nseg := g.R.Range(2, 5)
+		subs := make([][]int32, nseg)
+		sizes := make([]int32, nseg)
+		for s := 0; s < nseg; s++ {
+			size := g.R.Range(1, 40)
+			sizes[s] = int32(size)
+			var ps []int32
+			if g.R.Intn(4) > 0 {
+				for _, p := range c12Positions(g, g.R.Intn(2), size, g.R.Pick(1, 2, 3)) { // small positions inside the size
+					ps = append(ps, p)
+				}
+			}
+			if s < nseg-1 && g.R.Intn(3) > 0 || g.R.Intn(4) == 0 {
+				p := g.R.Range(64, 200)
+				if len(ps) == 0 || int(ps[len(ps)-1]) < p {
+					ps = append(ps, int32(p))
+					if g.R.Bool() {
+						ps = append(ps, int32(p+g.R.Pick(1, 2, 63, 64)))
+					}
+				}
+			}
+			if ps == nil {
+				ps = []int32{}
+			}
+			subs[s] = ps
+		}
+		fits, asc, rev := c12Shape(subs, sizes)
+		key := fmt.Sprintf("OMR/seg%d/fits%v/asc%v/revisit%v", nseg, fits, asc, rev)
+		g.Stat("ofmany-revisit")
+		g.Do("bitmap.OfMany/asOf", L(c12Subs(subs), I32s(sizes)), key)
+		if fits {
+			g.Do("bitmap.OfMany", L(c12Subs(subs), I32s(sizes)), key)
+			g.Do("bitmap.Builder/asOfMany", L(Int(g.R.Pick(0, 64)), c12Subs(subs), I32s(sizes)), key)
+		}
 	}
 
 	// (10) exhaustive small sub-domains
@@ -779,33 +867,28 @@ func genC12(g *Gen) {
 	}
 	hist(nil)
 	g.Exhaust = append(g.Exhaust, fmt.Sprintf("Builder: every history of 1..%d calls over {Extend([],0), Extend([],1), Extend([0],1), Extend([63],64), Extend([64],64), Extend([0,1],0), Set(0,1), Set(63,1), Set(64,0), Set(64,1)} from NewBuilder(0) and NewBuilder(64)", maxLen))
-	// (c) OfMany: every list of at most 3 segments over a 7-segment alphabet; all of them through OfMany/asOf, the
-	// ones whose shifted concatenation is ascending also through OfMany
+	// (c) OfMany: every list of at most 3 segments over a 12-segment alphabet (five of them with a position far past the
+	// segment's size, so that later segments revisit words); all of them through OfMany/asOf, the ones on which the real
+	// OfMany does not panic also through OfMany (set of bits) and Builder/asOfMany
 	type seg struct {
 		ps   []int32
 		size int32
 	}
-	salpha := []seg{{nil, 0}, {nil, 1}, {[]int32{0}, 1}, {[]int32{0}, 64}, {[]int32{63}, 64}, {[]int32{0, 63}, 64}, {[]int32{64}, 64}}
+	salpha := []seg{{nil, 0}, {nil, 1}, {[]int32{0}, 1}, {[]int32{0}, 64}, {[]int32{63}, 64}, {[]int32{0, 63}, 64}, {[]int32{64}, 64},
+		{[]int32{0, 70}, 1}, {[]int32{1}, 100}, {[]int32{130}, 40}, {[]int32{2}, 3}, {[]int32{65, 200}, 10}}
 	var segs func(prefix []seg)
 	segs = func(prefix []seg) {
 		subs := make([][]int32, len(prefix))
 		sizes := make([]int32, len(prefix))
-		asc, last, base := true, int32(-1), int32(0)
 		for i, sg := range prefix {
 			subs[i] = append([]int32{}, sg.ps...)
 			sizes[i] = sg.size
-			for _, p := range sg.ps {
-				if base+p < last {
-					asc = false
-				}
-				last = base + p
-			}
-			base += sg.size
 		}
-		key := fmt.Sprintf("OMX/seg%d/asc%v", len(prefix), asc)
+		fits, asc, rev := c12Shape(subs, sizes)
+		key := fmt.Sprintf("OMX/seg%d/fits%v/asc%v/revisit%v", len(prefix), fits, asc, rev)
 		g.Stat("ofmany-exh")
 		g.Do("bitmap.OfMany/asOf", L(c12Subs(subs), I32s(sizes)), key)
-		if asc {
+		if fits {
 			g.Do("bitmap.OfMany", L(c12Subs(subs), I32s(sizes)), key)
 			g.Do("bitmap.Builder/asOfMany", L("0", c12Subs(subs), I32s(sizes)), key)
 		}
@@ -817,5 +900,5 @@ func genC12(g *Gen) {
 		}
 	}
 	segs(nil)
-	g.Exhaust = append(g.Exhaust, "OfMany: every list of 0..3 segments over {([],0), ([],1), ([0],1), ([0],64), ([63],64), ([0,63],64), ([64],64)}")
+	g.Exhaust = append(g.Exhaust, "OfMany / Builder: every list of 0..3 segments over {([],0), ([],1), ([0],1), ([0],64), ([63],64), ([0,63],64), ([64],64), ([0,70],1), ([1],100), ([130],40), ([2],3), ([65,200],10)}")
 }
